@@ -66,7 +66,7 @@ def pdf_pixels(pk, w, h, data):
     return rows
 
 
-def encode_chain(chain, data, variant=0, geom=None):
+def encode_chain(chain, data, variant=0, geom=None, row_types=None):
     """/Filter [f1 f2 ..] decodes f1 first: encode in reverse.  DCT/JPX/JBIG2/CCITT payloads are opaque blobs.
     -> (encoded bytes, [DecodeParms or None per filter]).  A filter with a predictor (PREDICTOR_FILTERS) predicts what its
     decoding stage outputs: the image rows (geom = (colors, columns, bits)) when it is the last filter of the chain, else the
@@ -79,7 +79,8 @@ def encode_chain(chain, data, variant=0, geom=None):
             codec, kind = PREDICTOR_FILTERS[f]
             colors, columns, bits = geom if q == len(chain) - 1 else (1, len(out), 8)
             if kind == "png":
-                out = K.png_predict(out, colors, columns, bits, [0, 1, 2, 3, 4]) if columns else out
+                types = row_types if (row_types and q == len(chain) - 1) else [0, 1, 2, 3, 4]
+                out = K.png_predict(out, colors, columns, bits, types) if columns else out
                 parms[q] = {"Predictor": 10 + (variant + q) % 6, "Colors": colors, "BitsPerComponent": bits, "Columns": max(columns, 1)}
             else:
                 if bits != 8:
@@ -92,7 +93,7 @@ def encode_chain(chain, data, variant=0, geom=None):
     return out, parms
 
 
-def image_xobject(pk, w, h, chain, variant=0):
+def image_xobject(pk, w, h, chain, variant=0, row_types=None, samples=None):
     bits, cs, ncomp = PIX[pk]
     attrs = {"Type": Name("XObject"), "Subtype": Name("Image"), "Width": w, "Height": h, "BitsPerComponent": bits,
              "ColorSpace": Name(cs)}
@@ -102,8 +103,8 @@ def image_xobject(pk, w, h, chain, variant=0):
         attrs["Filter"] = [Name(FILTER_NAME[f]) for f in chain]
     if "JBIG2" in chain:
         raise MachineryError("JBIG2 payloads are not realised")
-    data = image_data(pk, w, h)
-    enc, parms = encode_chain(chain, data, variant, geom=(ncomp, w, bits))
+    data = samples if samples is not None else image_data(pk, w, h)
+    enc, parms = encode_chain(chain, data, variant, geom=(ncomp, w, bits), row_types=row_types)
     if any(parms):
         attrs["DecodeParms"] = parms[0] if len(chain) == 1 else parms
     if len(data) > 4000 and w % 2 == 0 and chain == ["LZW"]:
@@ -137,7 +138,7 @@ def export_doc(imgs, variant=0, pages=1):
     for im in imgs:
         if im["name"] in page_x:
             flush()
-        page_x[im["name"]] = new(image_xobject(im["pk"], im["w"], im["h"], list(im["filters"]), variant))
+        page_x[im["name"]] = new(image_xobject(im["pk"], im["w"], im["h"], list(im["filters"]), variant, im.get("row_types"), im.get("samples")))
         page_body += b"q 10 0 0 10 20 20 cm " + ser_name(im["name"]) + b" Do Q\n"
     flush()
     objs[2] = {"Type": Name("Pages"), "Kids": kids, "Count": len(kids)}
